@@ -82,6 +82,9 @@ def cases(tier, seed):
         for mask in masks:
             for lay in LAYOUTS:
                 out.append({'shape': list(sh), 'mask': mask, 'layout': lay, 'md': True})
+    # an axis without any id (the other axis keeps its ids and metadata)
+    for sh in ((0, 2), (2, 0), (0, 3), (0, 0)):
+        out.append({'shape': list(sh), 'mask': 0, 'layout': 'csr', 'md': True})
     for sh in ((2, 2), (3, 3)):
         n = sh[0] * sh[1]
         for mask in ((1 << n) - 1, 0b101101011 & ((1 << n) - 1), 0b011010110 & ((1 << n) - 1)):
@@ -284,6 +287,8 @@ def check(case, acc, tmp):
     for which in ('sample', 'observation'):
         t, _ = make(case)
         other, mo = make(case)
+        if not mo.ids(which):
+            continue        # no id to rename away on an empty axis
         first = mo.ids(which)[0]
         other = other.update_ids({first: 'renamed_away'}, axis=which, strict=False, inplace=False)
         for mode in ('sample', 'observation', 'both', 'detect'):
